@@ -18,7 +18,8 @@ LEVEL = 'exploration'
 RULE = ('workbooks with two sheets of constants and well-behaved formulas (arithmetic, SUM over ranges and whole columns, IF, '
         'IFERROR, cross-sheet references, one formula that raises); histories of 1-6 set_cells batches x 1-4 cells: the same cell '
         'rewritten within a batch and across batches, formula cells (the raising one included), constants, blanks, cells beyond '
-        'the used range, both sheets, A1-style and numeric addressing mixed; after every batch all formula cells and all touched '
+        'the used range, both sheets, A1-style and numeric addressing mixed; after two batches out of three (the third is followed directly by '
+        'the next set_cells call) all formula cells and all touched '
         'cells are queried and compared with a fresh translation of the edited workbook; each history runs under several hash '
         'seeds. Non-trivial: a (history prefix, hash seed) in which a cell was written at least twice or a formula cell was '
         'overridden; distinct by (history id, step, hash seed)')
@@ -127,6 +128,11 @@ def run_history(ctx, hid, spec, hist, hs):
         if not o.ok:
             report(r, ID, None, {'history': hist, 'step': step, 'spec': spec, 'hashseed': hs}, o.brief(), 'set_cells accepts the batch', monitor='set_cells')
             return
+        # a third of the batches is NOT followed by a query (several set_cells calls in a row): a pending-changes delta that is
+        # replaced instead of merged, or a replay that only takes the last batch, shows at the next query
+        if step < len(hist) - 1 and (hash((repr(hid), step)) % 3 == 0):
+            r.count('batches_without_query')
+            continue
         fresh = pipeline.Book(edited, ctx.workdir, name='edited')
         pred = None
         for (si, a) in queries(spec, written):
